@@ -206,6 +206,20 @@ func c05(r *core.Run) {
 	c05IDFresh(r)
 	c05EntropyAgree(r)
 	c05PackArgs(r)
+	// the hash stored at index time equals the hash computed at scan time only if the hash functions are deterministic:
+	// every range over a map on their path is order-insensitive or feeds a total sort (the effect engine of C01/C10)
+	{
+		var es []*ssa.Function
+		for _, e := range [][2]string{{"pkg/detection", "GenerateTopologyHash"}, {"pkg/analysis/topology", "GenerateFuzzyHash"}, {"pkg/analysis/topology", "ExtractTopology"}} {
+			if fn := p.Func(e[0], e[1]); fn != nil {
+				es = append(es, fn)
+			}
+		}
+		if len(es) > 0 {
+			runOrd(r, "C05.ORD", reachPrecise(p, es...), 1)
+		}
+	}
+
 	c05CaseSym(r)
 	c05UniqueTags(r, "C05.TAGS")
 }
